@@ -31,7 +31,10 @@ CHECKS = {
             "6 C08", SEQ_NOTE, "Coq invariant proof by induction over histories + vm_compute correspondence + anti-join oracle"),
     'C09': ("proof", "Coq theorems C09_step / C09_invariant (parent links form a forest with correct root pointers in every "
             "reachable state, incl. re-parenting/un-parenting of subtrees: subtree DFS proved exact) and the rejection theorems; "
-            "tied by differential tree-heavy histories; oracle recomputes roots by climbing on the real dump.",
+            "tied by differential tree-heavy histories; oracle recomputes roots by climbing on the real dump. Beyond the property's "
+            "quantifier: Model/ConcTree.v (PUT = load + save with the loaded parent) - the forest is preserved under ALL schedules of "
+            "any number of concurrent requests of any kind (C09_forest_all_schedules), every executed interleaving of the "
+            "interleaving stream is replayed in that model.",
             "6 C09", SEQ_NOTE, "Coq invariant proof (inductive chain predicate, fuelled DFS exactness) + vm_compute correspondence + root-climbing oracle"),
     'C10': ("proof", "Coq theorems: generations never decrease, errors change none, every inventory/trait/aggregate(>=1.19) change "
             "and every allocation write strictly increases the provider's / consumer's generation, reported generation = stored; "
@@ -144,14 +147,21 @@ CHECKS.update({
             "/resource_providers of the model (which follows _get_all_by_filters_from_db stage by stage) lists EXACTLY the existing providers "
             "that satisfy every supplied filter (rp_matches: name, uuid, in_tree, member_of incl. in:/!/!in:, required incl. in:/!, resources "
             "with capacity, min/max unit and step), each once; unknown in_tree / uuid / aggregates give the empty list; the answer is 400 "
-            "exactly when a filter is unavailable at the microversion or names an unknown trait or class. Tie: generated states and listing "
-            "queries on the real application compared with the model inside Coq; a disagreement is reported as a concrete failing query.",
+            "exactly when a filter is unavailable at the microversion or names an unknown trait or class. From the query string "
+            "(Model/DecodeQ.v: dict(req.GET) validated against the regenerated query schema of the version, values read as the handler "
+            "reads them through the value parsers of Model/Parse.v): never an escaping exception, 400 exactly when the schema or a value "
+            "parser rejects, and every accepted query satisfies the version gates the listing theorems assume (C13_query_accepted_wf). "
+            "Tie: generated states and listing queries on the real application compared with the model inside Coq; the REAL handler called "
+            "on generated query strings with the filters it builds captured and compared with the decoder; a disagreement is reported as "
+            "a concrete failing query.",
             "6 C13", SEQ_NOTE + " Query-string parsing is modelled as version gates over parsed filters.",
             "Coq proof of model = declarative specification + differential execution of generated listings (correspondence)"),
     'C03': ("proof", "PARTIAL and refuted in named corners. Proved: the executable specification spec_candidates enumerates exactly the "
             "`valid` combinations of the property (sound, complete up to same_creq, distinct); the slot conditions mean what the property "
             "says (room, traits, aggregates, tree); the code model's per-group single-provider search equals the specification's slot "
-            "condition. NOT proved: whole-pipeline equality of the code model with the specification - it is FALSE: theorems "
+            "condition; on the fragment 'no sharing provider, every group suffixed' (any number of groups, group_policy, same_subtree, "
+            "root_required, in_tree, member_of, any microversion) the whole pipeline returns EXACTLY the specification's combinations "
+            "(C03_suffixed_only_exact). NOT proved: whole-pipeline equality of the code model with the specification - it is FALSE: theorems "
             "C03_refuted_anchor_dedup and C03_refuted_in_tree_pin exhibit states and queries (replayed on the application on every run, "
             "known findings) on which valid candidates are omitted; a nested sharing provider gives 500 (known finding). Elsewhere equality "
             "is COMPARED, not proved: every generated case is evaluated three ways inside Coq (application answer, code model, "
